@@ -300,6 +300,12 @@ impl Kind {
 struct Shared {
     kind: Kind,
     k: usize,
+    /// combined kinds `<clean>+err|eof`: the fault that follows the clean cause, its operation index
+    /// counted from the moment the controller applied the cause, and the absolute index once known
+    late: Option<Kind>,
+    late_k: usize,
+    late_from: Cell<Option<usize>>,
+    ops_at_act: Cell<Option<usize>>,
     ops: Cell<usize>,
     failed: Cell<Option<FErr>>,
     injected_at: Cell<Option<usize>>,
@@ -327,6 +333,13 @@ impl Shared {
             self.failed.set(Some(if self.kind == Kind::Err { FErr::Injected } else { FErr::Closed }));
             self.injected_at.set(Some(n));
             return true;
+        }
+        if let (Some(f), Some(from)) = (self.late, self.late_from.get()) {
+            if n >= from {
+                self.failed.set(Some(if f == Kind::Err { FErr::Injected } else { FErr::Closed }));
+                self.injected_at.set(Some(n));
+                return true;
+            }
         }
         if !self.kind.is_fault() && self.kind != Kind::None && n + 1 >= self.k {
             self.trigger.set();
@@ -785,12 +798,45 @@ async fn sc_syncloop(cx: Ctx) {
 struct Case {
     scenario: usize,
     kind: Kind,
+    /// `Some(Err | Eof)`: kind `<clean>+err` / `<clean>+eof` -- the clean cause `kind` is applied (at
+    /// the first quiescence or at an operation index drawn from the seed), then transport operation
+    /// number `k` COUNTED FROM THAT MOMENT and every later one fail
+    late: Option<Kind>,
     k: usize,
     seed: u64,
 }
 impl Case {
+    fn kind_name(&self) -> String {
+        match self.late {
+            Some(f) => format!("{}+{}", self.kind.name(), f.name()),
+            None => self.kind.name().to_string(),
+        }
+    }
     fn id(&self) -> String {
-        format!("{} {} {} {}", SCENARIOS[self.scenario], self.kind.name(), self.k, self.seed)
+        format!("{} {} {} {}", SCENARIOS[self.scenario], self.kind_name(), self.k, self.seed)
+    }
+    fn parse_kind(s: &str) -> (Kind, Option<Kind>) {
+        match s.split_once('+') {
+            Some((c, f)) => {
+                let (c, f) = (Kind::parse(c), Kind::parse(f));
+                if c.is_fault() || c == Kind::None || !f.is_fault() {
+                    panic!("unknown kind {s}");
+                }
+                (c, Some(f))
+            }
+            None => (Kind::parse(s), None),
+        }
+    }
+    /// the operation index at which the clean cause of a combined kind is applied: never reached
+    /// (= at the first quiescence, everything the scenario does is pending) for half of the seeds,
+    /// somewhere in the middle of the scenario for the others
+    fn cause_k(&self) -> usize {
+        let x = self.seed.wrapping_mul(0x9E37_79B9_7F4A_7C15) >> 33;
+        if x % 2 == 0 {
+            usize::MAX
+        } else {
+            3 + ((x / 2) % 24) as usize
+        }
     }
 }
 
@@ -820,6 +866,8 @@ struct Outcome {
     /// where the application's reply drops fell: [main loop, draining and waiting for the peer's
     /// Shutdown, draining otherwise, after run returned / failed], and AbortFunctionCall messages sent
     reply_drops: [usize; 5],
+    /// transport operations completed after the controller applied the clean cause
+    post_ops: usize,
 }
 
 /// classify the `drop` lines of a trace by the state of the client as the wire shows it
@@ -867,7 +915,11 @@ fn run_case(c: &Case) -> Outcome {
     let b: Rc<RefCell<Board>> = Rc::new(RefCell::new(Board::default()));
     let sh = Rc::new(Shared {
         kind: c.kind,
-        k: c.k,
+        k: if c.late.is_some() { c.cause_k() } else { c.k },
+        late: c.late,
+        late_k: c.k,
+        late_from: Cell::new(None),
+        ops_at_act: Cell::new(None),
         ops: Cell::new(0),
         failed: Cell::new(None),
         injected_at: Cell::new(None),
@@ -1109,6 +1161,10 @@ fn run_case(c: &Case) -> Outcome {
                 return;
             }
             b2.borrow_mut().acted = true;
+            sh2.ops_at_act.set(Some(sh2.ops.get()));
+            if sh2.late.is_some() {
+                sh2.late_from.set(Some(sh2.ops.get() + sh2.late_k));
+            }
             stopping.set();
             match kind {
                 Kind::Shutdown | Kind::None | Kind::Err | Kind::Eof => {
@@ -1181,13 +1237,17 @@ fn run_case(c: &Case) -> Outcome {
     }
     let run = bb.victim_run.clone();
     let run_s = if bb.victim_connect_failed { "connect_failed".to_string() } else { run.clone().unwrap_or_else(|| "none".into()) };
+    // the injected fault is sticky and only `Client::run` (or connect) polls the victim's transport:
+    // once it fired, run has been handed that error and must return it -- whatever clean cause was
+    // under way (a clean handshake that completed BEFORE the fault index leaves the fault unfired)
+    let fault_kind = if c.kind.is_fault() { Some(c.kind) } else { c.late };
     let expect: Vec<String> = match c.kind {
-        Kind::Err | Kind::Eof => {
-            if fired {
-                let e = if c.kind == Kind::Err { "transport:Injected" } else { "transport:Closed" };
-                vec![e.to_string(), "connect_failed".to_string()]
+        _ if fired => {
+            let e = if fault_kind == Some(Kind::Err) { "transport:Injected" } else { "transport:Closed" };
+            if c.late.is_some() {
+                vec![e.to_string()]
             } else {
-                vec!["ok".to_string()]
+                vec![e.to_string(), "connect_failed".to_string()]
             }
         }
         Kind::ConnDrop if bb.acted => vec!["ok".to_string(), "transport:Peer".to_string()],
@@ -1280,6 +1340,7 @@ fn run_case(c: &Case) -> Outcome {
         op_kinds: opk,
         labelled,
         reply_drops,
+        post_ops: sh.ops_at_act.get().map(|a| sh.ops.get() - a).unwrap_or(0),
     }
 }
 
@@ -1310,13 +1371,14 @@ fn run_case_caught(c: &Case) -> Outcome {
             op_kinds: [0; 3],
             labelled: 0,
             reply_drops: [0; 5],
+            post_ops: 0,
         },
     }
 }
 
 // ------------------------------------------------------------------ main
 fn usage() -> ! {
-    eprintln!("usage: fault gen OUTDIR SCHEDULES SHARD NSHARDS NSCENARIOS | fault one SCENARIO KIND K SEED");
+    eprintln!("usage: fault gen OUTDIR SCHEDULES SHARD NSHARDS NSCENARIOS | fault one SCENARIO KIND K SEED   (KIND: err eof shutdown lastdrop broker connclose conndrop, or <clean>+err / <clean>+eof)");
     std::process::exit(2)
 }
 
@@ -1332,7 +1394,8 @@ fn main() {
                 usage();
             }
             let scenario = SCENARIOS.iter().position(|s| *s == a[2]).unwrap_or_else(|| usage());
-            let c = Case { scenario, kind: Kind::parse(&a[3]), k: a[4].parse().unwrap(), seed: a[5].parse().unwrap() };
+            let (kind, late) = Case::parse_kind(&a[3]);
+            let c = Case { scenario, kind, late, k: a[4].parse().unwrap(), seed: a[5].parse().unwrap() };
             let o = run_case_caught(&c);
             for l in &o.trace {
                 println!("{l}");
@@ -1361,7 +1424,8 @@ fn main() {
             let mut mon_f = std::fs::File::create(format!("{out}/monitor.txt")).unwrap();
             let mut n_cases = 0usize;
             let mut classes: BTreeMap<String, usize> = BTreeMap::new();
-            let mut by_kind: BTreeMap<&'static str, usize> = BTreeMap::new();
+            let mut by_kind: BTreeMap<String, usize> = BTreeMap::new();
+            let mut maxpost: BTreeMap<String, usize> = BTreeMap::new();
             let mut by_scen: BTreeMap<&'static str, usize> = BTreeMap::new();
             let mut fired = 0usize;
             let mut polls = 0usize;
@@ -1377,7 +1441,7 @@ fn main() {
                 // dry runs: how many transport operations does the scenario perform?
                 let mut total = 0;
                 for s in 0..3u64 {
-                    let o = run_case_caught(&Case { scenario, kind: Kind::None, k: 0, seed: seed0.wrapping_mul(977).wrapping_add(s) });
+                    let o = run_case_caught(&Case { scenario, kind: Kind::None, late: None, k: 0, seed: seed0.wrapping_mul(977).wrapping_add(s) });
                     total = total.max(o.ops);
                     if !o.problems.is_empty() && shard == 0 {
                         violations += 1;
@@ -1393,10 +1457,27 @@ fn main() {
                     maxops.insert(SCENARIOS[scenario], total);
                 }
                 let kinds = [Kind::Err, Kind::Eof, Kind::Shutdown, Kind::LastDrop, Kind::Broker, Kind::ConnClose, Kind::ConnDrop];
-                for kind in kinds {
-                    for k in 0..=total + 1 {
+                // (kind, fault after the clean cause, last k)
+                let mut plans: Vec<(Kind, Option<Kind>, usize)> = kinds.iter().map(|k| (*k, None, total + 1)).collect();
+                // combined kinds: a clean cause, then err / eof at every transport operation that follows it
+                for clean in [Kind::Shutdown, Kind::LastDrop, Kind::Broker, Kind::ConnClose, Kind::ConnDrop] {
+                    // dry runs (the fault index is never reached): how many operations follow the cause?
+                    let mut post = 0;
+                    for s in 0..6u64 {
+                        let seed = seed0.wrapping_mul(1013).wrapping_add(s * 3 + clean as u64 * 17);
+                        let o = run_case_caught(&Case { scenario, kind: clean, late: Some(Kind::Err), k: usize::MAX / 2, seed });
+                        post = post.max(o.post_ops);
+                    }
+                    if shard == 0 {
+                        maxpost.insert(format!("{}/{}", SCENARIOS[scenario], clean.name()), post);
+                    }
+                    plans.push((clean, Some(Kind::Err), post + 1));
+                    plans.push((clean, Some(Kind::Eof), post + 1));
+                }
+                for (kind, late, last_k) in plans {
+                    for k in 0..=last_k {
                         // the clean causes are applied at every second operation index (and the first six)
-                        if !kind.is_fault() && k > 6 && k % 2 == 1 {
+                        if late.is_none() && !kind.is_fault() && k > 6 && k % 2 == 1 {
                             continue;
                         }
                         for s in 0..schedules {
@@ -1408,8 +1489,9 @@ fn main() {
                                 .wrapping_mul(0x9E37_79B9)
                                 .wrapping_add((scenario as u64) << 40)
                                 .wrapping_add((k as u64) << 20)
-                                .wrapping_add(s * 7 + kind as u64 * 131);
-                            let c = Case { scenario, kind, k, seed };
+                                .wrapping_add(s * 7 + kind as u64 * 131)
+                                .wrapping_add(late.map(|f| 7777 + f as u64 * 1009).unwrap_or(0));
+                            let c = Case { scenario, kind, late, k, seed };
                             let o = run_case_caught(&c);
                             n_cases += 1;
                             writeln!(cases_f, "{}", c.id()).unwrap();
@@ -1418,7 +1500,7 @@ fn main() {
                                 writeln!(trace_f, "{l}").unwrap();
                             }
                             *classes.entry(o.run_class.clone()).or_default() += 1;
-                            *by_kind.entry(kind.name()).or_default() += 1;
+                            *by_kind.entry(c.kind_name()).or_default() += 1;
                             *by_scen.entry(SCENARIOS[scenario]).or_default() += 1;
                             if o.fired {
                                 fired += 1;
@@ -1432,7 +1514,7 @@ fn main() {
                                 drops[i] += o.reply_drops[i];
                             }
                             if o.ops >= 4 {
-                                nontrivial.insert((scenario, kind.name(), k, o.summary.clone()));
+                                nontrivial.insert((scenario, c.kind_name(), k, o.summary.clone()));
                             }
                             if samples.len() < 12 && n_cases % 97 == 1 {
                                 samples.push(format!("{} -> {}", c.id(), o.summary));
@@ -1457,15 +1539,16 @@ fn main() {
             let samples_js: Vec<String> = samples.iter().map(|s| format!("\"{}\"", s.replace('"', "'"))).collect();
             let stats = format!(
                 "{{\"cases\": {n_cases}, \"violations\": {violations}, \"fault_fired\": {fired}, \"polls\": {polls}, \"labelled_waiters\": {labelled}, \
-                 \"distinct_nontrivial\": {}, \"result_classes\": {}, \"case_kinds\": {}, \"scenarios\": {}, \"transport_ops_per_scenario\": {}, \
+                 \"distinct_nontrivial\": {}, \"result_classes\": {}, \"case_kinds\": {}, \"scenarios\": {}, \"transport_ops_per_scenario\": {}, \"transport_ops_after_clean_cause\": {}, \
                  \"ops\": {{\"receive\": {}, \"send_start\": {}, \"flush\": {}}}, \
                  \"reply_drops\": {{\"main_loop\": {}, \"draining_awaiting_peer_shutdown\": {}, \"draining_other\": {}, \"after_return\": {}, \
                  \"abort_function_call_sent\": {}}}, \"samples\": [{}]}}",
                 nontrivial.len(),
                 js(&classes),
-                js2(&by_kind),
+                js(&by_kind),
                 js2(&by_scen),
                 js2(&maxops),
+                js(&maxpost),
                 opk[0],
                 opk[1],
                 opk[2],
